@@ -245,3 +245,15 @@ def run(ck, prog, ctx):
     ck.rule("SIBLING", "an iterator wrapper's next / next_back / len / size_hint delegates to the same method of the inner iterator (DESIGN 3.15)")
     from engines import check_iterator_delegations
     check_iterator_delegations(ck, "SIBLING", prog, r"^src/ontology/termarena\.rs$")
+    # container methods of the wrapper types answer with the same-named method of one inner collection
+    ck.rule("WRAPPER", "len / is_empty / contains / get / iter / push ... of a wrapper type delegate to the same-named method of ONE inner collection, un-negated (DESIGN 3.9)")
+    from engines import check_wrappers
+    check_wrappers(ck, "WRAPPER", prog, r"^src/ontology\.rs$|^src/ontology/termarena\.rs$", floor=3)
+    # records and terms are identified by their id: equality compares the id of both values, Hash feeds the same key
+    ck.rule("IDENTITY", "hand-written PartialEq compares the same field of self and other; Hash uses no field that equality ignores")
+    from engines import check_identity_impls
+    check_identity_impls(ck, "IDENTITY", prog, r"^src/(annotations|term)/", floor=3)
+    # iterators that turn one inner item into one item of their own never answer None while the inner iterator still has items
+    ck.rule("MAPITER", "a hand-written mapping iterator returns None only on the inner iterator's exhaustion (no early end on a failed lookup)")
+    from engines import check_mapping_iterators
+    check_mapping_iterators(ck, "MAPITER", prog, r"^src/(ontology|term|annotations/(gene|omim_disease|orpha_disease))\.rs$|^src/term/group\.rs$|^src/ontology/termarena\.rs$", floor=5)
